@@ -358,4 +358,29 @@ def Registry.tick (r : Registry) : Registry :=
 def Registry.switch (r : Registry) (prev new : List Path) : Registry :=
   (r.manage new).schedule prev new
 
+/-! ### Policies mode (`LUNAR_STREAMS_ENABLED` unset)
+
+The configuration payload is ONE policies document: `POST /apply_policies` → `UpdateRawData` (unmarshal,
+validate, build, `UpdatePoliciesData`: register the endpoints with the proxy and ONLY THEN make the new
+policies the current version; then write `policies.yaml`) → `ReloadFromFile`. The two revert endpoints
+publish policies that are already loaded. State: the label of the document on disk and the label of the
+policies serving NEW transactions. -/
+
+structure PState where
+  disk : Nat
+  run : Nat
+deriving DecidableEq, Repr
+
+inductive PPayload
+  | label (k : Nat)    -- a valid policies document
+  | invalid            -- not YAML / fails validation
+deriving Repr
+
+def applyPolicies (proxyRefuses : Bool) (st : PState) : PPayload → Nat × PState
+  | .invalid => (422, st)
+  | .label k => if proxyRefuses then (422, st) else (200, ⟨k, k⟩)
+
+def revertPolicies (proxyRefuses : Bool) (st : PState) : Nat × PState :=
+  (if proxyRefuses then 422 else 200, st)
+
 end LunarVerif.C08
